@@ -197,3 +197,61 @@ Print Assumptions C07_regex_parsed_patterns_are_fine.
 Theorem C07_regex_matcher_terminates : forall pat text, parse_regex_captures pat text <> RxFuel.
 Proof. exact parse_regex_captures_no_fuel. Qed.
 Print Assumptions C07_regex_matcher_terminates.
+
+(** *** the parse-regex STAGE on a row (RegexStage.v: the text from the line or the `from` field, trimmed; bindings
+    converted unless noconvert; compared row by row with the binary on every run) *)
+From AG Require Import RegexStage RegexStage_proofs.
+
+(** a match: the row keeps its fields and gains exactly the named groups; each group is bound to its (converted) text
+    or to None - whatever fields the row had before *)
+Theorem C07_regex_stage_match : forall pat from nodrop noconv r rx inp l,
+  parse_regex pat = Some rx -> unnamed_count rx = 0%nat ->
+  get_input r from = Ok inp ->
+  parse_regex_captures pat (trim inp) = RxMatch l ->
+  exists row',
+    rx_stage pat from nodrop noconv r = Ok (Some row') /\
+    rraw row' = rraw r /\
+    map fst l = regex_named rx /\
+    (forall k, has k (rdata row') = true <-> has k (rdata r) = true \/ In k (regex_named rx)) /\
+    (forall n o, In (n, o) l -> get n (rdata row') = Some (rx_value noconv o)) /\
+    (forall k, ~ In k (regex_named rx) -> get k (rdata row') = get k (rdata r)).
+Proof. exact rx_stage_match. Qed.
+Print Assumptions C07_regex_stage_match.
+
+(** a group that took no part in the match is None even when the row already had a field of that name (the seeded
+    change C07h leaves the stale value) *)
+Theorem C07_regex_stage_nonparticipating_group_is_none : forall pat from nodrop noconv r rx inp l n v0,
+  parse_regex pat = Some rx -> unnamed_count rx = 0%nat ->
+  get_input r from = Ok inp ->
+  parse_regex_captures pat (trim inp) = RxMatch l ->
+  In (n, None) l ->
+  get n (rdata r) = Some v0 ->
+  exists row', rx_stage pat from nodrop noconv r = Ok (Some row') /\
+               get n (rdata row') = Some VNone.
+Proof. exact rx_stage_nonparticipating. Qed.
+Print Assumptions C07_regex_stage_nonparticipating_group_is_none.
+
+Theorem C07_regex_stage_drop : forall pat from noconv r rx inp,
+  parse_regex pat = Some rx -> unnamed_count rx = 0%nat ->
+  get_input r from = Ok inp ->
+  parse_regex_captures pat (trim inp) = RxNoMatch ->
+  rx_stage pat from false noconv r = Ok None.
+Proof. exact rx_stage_nomatch_drop. Qed.
+Print Assumptions C07_regex_stage_drop.
+
+Theorem C07_regex_stage_nodrop_keeps : forall pat from noconv r rx inp,
+  parse_regex pat = Some rx -> unnamed_count rx = 0%nat ->
+  get_input r from = Ok inp ->
+  parse_regex_captures pat (trim inp) = RxNoMatch ->
+  exists row',
+    rx_stage pat from true noconv r = Ok (Some row') /\
+    rraw row' = rraw r /\
+    (forall k, has k (rdata r) = true -> get k (rdata row') = get k (rdata r)) /\
+    (forall k, In k (regex_named rx) -> has k (rdata r) = false -> get k (rdata row') = Some VNone) /\
+    (forall k, ~ In k (regex_named rx) -> get k (rdata row') = get k (rdata r)).
+Proof. exact rx_stage_nomatch_nodrop. Qed.
+Print Assumptions C07_regex_stage_nodrop_keeps.
+
+Theorem C07_regex_stage_no_panic : forall pat from nodrop noconv r, rx_stage pat from nodrop noconv r <> Panic.
+Proof. exact rx_stage_no_panic. Qed.
+Print Assumptions C07_regex_stage_no_panic.
